@@ -464,6 +464,17 @@ func (st *tunnelServerStream) SendMsg(m interface{}) error {
 	st.writeMu.Lock()
 	defer st.writeMu.Unlock()
 
+	if st.closed {
+		// The stream is already finished (for example, because the client
+		// cancelled the RPC). That claimed the response headers and the close
+		// frame, which are sent asynchronously. No message may be sent in
+		// front of those headers or after that close frame.
+		if err := st.ctx.Err(); err != nil {
+			return status.FromContextError(err).Err()
+		}
+		return status.Error(codes.Internal, "stream is already finished")
+	}
+
 	if !st.sentHeaders {
 		if err := st.sendHeadersLocked(); err != nil {
 			return err
